@@ -78,6 +78,15 @@ func c01validator(ctx context.Context, database, username, password string) (con
 	case strings.HasPrefix(password, "nil:"):
 		// a rejection that hands back no context and no error
 		return nil, false, nil
+	case strings.HasPrefix(password, "errc:"):
+		// the validator's own look-up failed with (or wrapped) a standard-library error - its context was
+		// cancelled, its deadline passed, its back end hung up; a failure like any other. Some report the
+		// failure next to a true verdict
+		cause := hs.Causes[1+int(core.H64("c01cause"+password)%uint64(len(hs.Causes)-1))]
+		if core.H64("c01wrap"+password)%2 == 0 {
+			cause = fmt.Errorf("credential look-up for %q: %w", username, cause)
+		}
+		return ctx, core.H64("c01verdict"+password)%3 == 0, cause
 	case strings.HasPrefix(password, "errn:"):
 		return nil, false, errors.New("validator backend unavailable (no context)")
 	}
@@ -105,7 +114,7 @@ func (c01) gen(rng *core.Rng) c01case {
 	case "accept":
 		k.Password = "ok:" + body
 	case "fail":
-		k.Password = core.Pick(rng, []string{"err:", "err:", "errt:", "errt:", "errn:"}) + body
+		k.Password = core.Pick(rng, []string{"err:", "errc:", "errc:", "errt:", "errt:", "errn:"}) + body
 	default:
 		k.Password = body
 		if strings.HasPrefix(body, "ok:") || strings.HasPrefix(body, "err") {
